@@ -28,6 +28,11 @@ func (db *DB) newReader(ctx context.Context, ptr pointer) (*Reader, error) {
 	if err != nil {
 		return nil, err
 	}
+	// The pointer was read from the index before the reader was acquired; a garbage
+	// collection pass that completed in between has moved the domain within its file.
+	// No pass can compact the file while the reader is held, so the offset read now
+	// matches the file the reader is open on.
+	ptr = db.idx.refresh(ptr)
 	reader := io.NewSectionReaderAtCloser(internal, int64(ptr.offset), int64(ptr.size))
 	return &Reader{ptr: ptr, ReaderAtCloser: reader}, nil
 }
